@@ -415,3 +415,140 @@ Proof.
   destruct (select_with_k_is_replayk _ _ _ _ _ _ _ R) as (bs & Hbs).
   exact (batch_selected_names_are_query_markers rm query t parent bh idx n k _ bs st ND PI Hbs).
 Qed.
+
+(* ================================================================== audit 4, A5 (i): compositions *)
+(* legality (SelectionPickKP.numpy_rule_is_legal_k) composed with the order theorem: for numpy's own
+   rule the two pair orders do not merely give "the same outcome" (which could be WKIllegal on both
+   sides): both runs END IN `break`, with selections that are permutations of each other *)
+Theorem numpy_pair_order_composed n_genes marks n k pairs pairs' sorter :
+  is_argsort sorter -> 1 <= k -> no_gene_both_ways marks -> pairs <> [] ->
+  Permutation pairs pairs' ->
+  exists st st',
+    select_with_k n_genes pairs marks n k (pick_pop sorter) = WKDone st /\
+    select_with_k n_genes pairs' marks n k (pick_pop sorter) = WKDone st' /\
+    (exists popped, chosen st = chosen (start n_genes pairs marks n) ++ popped /\
+                    chosen st' = chosen (start n_genes pairs' marks n) ++ popped) /\
+    Permutation (chosen (start n_genes pairs marks n)) (chosen (start n_genes pairs' marks n)) /\
+    Permutation (chosen st) (chosen st') /\
+    (forall s, counts st s = counts st' s) /\ (forall s, filled st s = filled st' s) /\
+    (forall g, utility st g = utility st' g).
+Proof.
+  intros Hs Hk _ _ HP.
+  destruct (numpy_rule_is_legal_k n_genes pairs marks n sorter Hs k Hk) as (st & E).
+  destruct (numpy_rule_is_legal_k n_genes pairs' marks n sorter Hs k Hk) as (st' & E').
+  pose proof (batch_pair_order_irrelevant n_genes marks n k pairs pairs' (pick_pop sorter) HP
+                (pick_pop_respects sorter)) as H.
+  rewrite E, E' in H. exists st, st'. split; [exact E|]. split; [exact E'|]. exact H.
+Qed.
+
+(* ------------------------------------------------------------------ select_parent_k: the four lifts *)
+(* (the k = 1 statements: SelectionNamesP.parent_short_circuit, parent_run_has_pairs,
+   empty_overlap_refused, overlap_needed; same proofs, genes_at_a_time is only handed down) *)
+Theorem parent_short_circuit_k k pick rm query t parent bh n :
+  keep_idx rm query <> [] -> leaf_pairs t parent = [] ->
+  select_parent_k k pick rm query t parent bh n = PKSkip.
+Proof.
+  intros K L. unfold select_parent_k. destruct (keep_idx rm query); [contradiction|]. rewrite L. reflexivity.
+Qed.
+
+Theorem parent_run_has_pairs_k k pick rm query t parent bh n ng r :
+  select_parent_k k pick rm query t parent bh n = PKRun ng r ->
+  exists arr idx, idx <> [] /\ Forall (fun i => i < length (rm_pairs arr)) idx /\
+    parent_idx arr t parent true = Some idx /\ ng = length (rm_genes arr) /\
+    rm_genes arr = rm_genes (thin_genes rm query) /\
+    (if bh then Some (thin_genes rm query)
+     else downsample_pairs (thin_genes rm query) (leaf_pairs t parent)) = Some arr /\
+    r = select_with_k ng idx (marks_of (pair_tables arr)) n k pick.
+Proof.
+  unfold select_parent_k. destruct (keep_idx rm query); [discriminate|].
+  destruct (leaf_pairs t parent) as [|lp lr] eqn:L; [discriminate|]. rewrite <- L.
+  set (rm' := thin_genes rm query).
+  intros H.
+  assert (G : forall arr, (if bh then Some rm' else downsample_pairs rm' (leaf_pairs t parent)) = Some arr ->
+                          rm_genes arr = rm_genes rm').
+  { intros arr E. destruct bh; [inversion E; reflexivity|].
+    unfold downsample_pairs in E. destruct (opt_all _); [|discriminate]. inversion E. reflexivity. }
+  destruct (if bh then Some rm' else downsample_pairs rm' (leaf_pairs t parent)) as [arr|] eqn:A; [|discriminate].
+  destruct (parent_idx arr t parent true) as [idx|] eqn:P; [|discriminate].
+  inversion H; subst. exists arr, idx. split.
+  - intros ->. unfold parent_idx in P. rewrite L in P. cbn in P.
+    destruct (idx_of_pair lp (rm_pairs arr) 0); [|discriminate].
+    destruct (opt_all _); [|discriminate]. inversion P as [P']. unfold nat_sort in P'.
+    apply (f_equal (@length nat)) in P'. rewrite map_length, zsort_length, map_length in P'. discriminate.
+  - split; [apply (parent_idx_in_range _ _ _ _ _ P)|]. split; [exact P|]. split; [reflexivity|].
+    split; [apply G; reflexivity|]. split; reflexivity.
+Qed.
+
+Theorem empty_overlap_refused_k k pick rm query t parent bh n :
+  (forall g, In g (rm_genes rm) -> ~ In g query) ->
+  select_parent_k k pick rm query t parent bh n = PKErrOverlap.
+Proof.
+  intros H. unfold select_parent_k. destruct (keep_idx rm query) as [|i r] eqn:K; [reflexivity|].
+  exfalso. assert (Hi : In i (keep_idx rm query)) by (rewrite K; left; reflexivity).
+  apply keep_idx_spec in Hi. destruct Hi as [Hl Hq]. apply (H _ (nth_In _ _ Hl) Hq).
+Qed.
+
+Theorem overlap_needed_k k pick rm query t parent bh n :
+  select_parent_k k pick rm query t parent bh n <> PKErrOverlap ->
+  exists g, In g (rm_genes rm) /\ In g query.
+Proof.
+  unfold select_parent_k. destruct (keep_idx rm query) as [|i r] eqn:K; [intros H; contradiction H; reflexivity|].
+  intros _. assert (Hi : In i (keep_idx rm query)) by (rewrite K; left; reflexivity).
+  apply keep_idx_spec in Hi. destruct Hi as [Hl Hq]. exists (nth i (rm_genes rm) 0%Z).
+  split; [apply nth_In; exact Hl | exact Hq].
+Qed.
+
+(* ------------------------------------------------------------------ threshold, composed *)
+(* legality composed with threshold_irrelevant_k at the level of the pipeline's per-parent entry: one
+   parent treated as a behemoth (global pair numbers) or handed its downsampled table (local numbers)
+   - both calls short-circuit, or both are refused with the same error, or BOTH _run_selection calls
+   end in `break` on arrays with the same genes, with selections that are permutations of each other
+   (the same genes popped by the loop in the same order after desperate prefixes that are
+   permutations of each other) and the same final utility array *)
+Theorem numpy_threshold_composed k sorter rm query t parent n :
+  is_argsort sorter -> 1 <= k -> NoDup (leaf_pairs t parent) ->
+  no_gene_both_ways (marks_of (pair_tables (thin_genes rm query))) ->
+  match select_parent_k k (pick_pop sorter) rm query t parent true n,
+        select_parent_k k (pick_pop sorter) rm query t parent false n with
+  | PKSkip, PKSkip => leaf_pairs t parent = []
+  | PKErrOverlap, PKErrOverlap => True
+  | PKErrPair, PKErrPair => True
+  | PKRun ng w, PKRun ng' w' =>
+      ng = ng' /\ ng = length (rm_genes (thin_genes rm query)) /\
+      exists st st', w = WKDone st /\ w' = WKDone st' /\
+        Permutation (chosen st) (chosen st') /\ (forall g, utility st g = utility st' g) /\
+        exists arr idxB idxD,
+          downsample_pairs (thin_genes rm query) (leaf_pairs t parent) = Some arr /\
+          parent_idx (thin_genes rm query) t parent true = Some idxB /\ idxB <> [] /\
+          parent_idx arr t parent true = Some idxD /\ idxD <> [] /\
+          Permutation (chosen (start ng idxB (marks_of (pair_tables (thin_genes rm query))) n))
+                      (chosen (start ng idxD (marks_of (pair_tables arr)) n)) /\
+          exists popped,
+            chosen st = chosen (start ng idxB (marks_of (pair_tables (thin_genes rm query))) n) ++ popped /\
+            chosen st' = chosen (start ng idxD (marks_of (pair_tables arr)) n) ++ popped
+  | _, _ => False
+  end.
+Proof.
+  intros Hs Hk ND _.
+  pose proof (threshold_irrelevant_k k (pick_pop sorter) rm query t parent n (pick_pop_respects sorter) ND) as H.
+  destruct (select_parent_k k (pick_pop sorter) rm query t parent true n) as [|ng w| |] eqn:EB;
+  destruct (select_parent_k k (pick_pop sorter) rm query t parent false n) as [|ng' w'| |] eqn:ED;
+    cbn in H; try contradiction; try exact Logic.I.
+  - (* both skip: only when the parent has no pair *)
+    unfold select_parent_k in EB. destruct (keep_idx rm query); [discriminate|].
+    destruct (leaf_pairs t parent) as [|lp lr]; [reflexivity|].
+    destruct (parent_idx (thin_genes rm query) t parent true); discriminate.
+  - destruct H as (E1 & E2 & arr & idxB & idxD & D & IB & ID & S).
+    destruct (parent_run_has_pairs_k _ _ _ _ _ _ _ _ _ _ EB) as (arrB & iB & NB & _ & PB & GB & _ & AB & RB).
+    destruct (parent_run_has_pairs_k _ _ _ _ _ _ _ _ _ _ ED) as (arrD & iD & NDd & _ & PD & GD & _ & AD & RD).
+    inversion AB; subst arrB. rewrite D in AD. inversion AD; subst arrD.
+    rewrite IB in PB. inversion PB; subst iB. rewrite ID in PD. inversion PD; subst iD.
+    subst ng'.
+    destruct (numpy_rule_is_legal_k ng idxB (marks_of (pair_tables (thin_genes rm query))) n sorter Hs k Hk) as (st & LB).
+    destruct (numpy_rule_is_legal_k ng idxD (marks_of (pair_tables arr)) n sorter Hs k Hk) as (st' & LD).
+    subst w w'. rewrite LB, LD in S |- *.
+    unfold sel_same_k in S. destruct S as ((pp & C1 & C2) & PS & PC & U).
+    split; [reflexivity|]. split; [exact E2|].
+    exists st, st'. split; [reflexivity|]. split; [reflexivity|]. split; [exact PC|]. split; [exact U|].
+    exists arr, idxB, idxD. repeat (split; [assumption|]). exists pp. split; assumption.
+Qed.
